@@ -42,9 +42,16 @@ theorem run_restores (limit : Nat) :
     · intro a ha s
       cases a with
       | panicHere => simp [runAct]
+      | haltHere => simp [runAct]
       | catching body =>
         simp only [runAct]
-        exact ih.2 body (by simp at ha; omega) s
+        have hb := ih.2 body (by simp at ha; omega) s
+        cases hr : runActs limit body s with
+        | mk s' out =>
+          rw [hr] at hb
+          simp only at hb
+          subst hb
+          cases out <;> rfl
       | call body =>
         simp only [runAct]
         cases he : enter limit s with
@@ -70,6 +77,77 @@ theorem run_restores (limit : Nat) :
           | done => exact ih.2 rest (by simp at ha; omega) s'
           | panicked => rfl
           | rangeError => rfl
+          | halted => rfl
+
+/-! ### the panic of an interrupt function (fix fd4edef: `rt.halting`) -/
+
+/-- C18.halt_not_caught: a try statement (or anything else that ends abnormal exits) around a body
+    that is halted by an interrupt function's panic is halted itself – and only then -/
+theorem halt_not_caught (limit : Nat) (body : Acts) (s : Stack) :
+    (runAct limit (.catching body) s).2 = .halted ↔ (runActs limit body s).2 = .halted := by
+  simp only [runAct]
+  cases hr : runActs limit body s with
+  | mk s' out => cases out <;> simp
+
+/-- … while every other abnormal exit of the body ends there -/
+theorem other_exits_caught (limit : Nat) (body : Acts) (s : Stack)
+    (h : (runActs limit body s).2 ≠ .halted) : (runAct limit (.catching body) s).2 = .done := by
+  generalize hr : runActs limit body s = r at h
+  obtain ⟨s', out⟩ := r
+  cases out <;> simp_all [runAct]
+
+/-- a halt ends the enclosing call: the deferred leaveScope runs, nothing else -/
+theorem halt_through_call (limit : Nat) (body : Acts) (s s' : Stack) (he : enter limit s = .ok s')
+    (h : (runActs limit body s').2 = .halted) : runAct limit (.call body) s = (s, .halted) := by
+  have hr := (run_restores limit).1 (.call body) s
+  simp only [runAct, he] at hr ⊢
+  cases hb : runActs limit body s' with
+  | mk s'' out =>
+    rw [hb] at h hr
+    simp only at h hr
+    subst h
+    simp [hr]
+
+/-- … and whatever would have come next does not run -/
+theorem halt_skips_rest (limit : Nat) (a : Act) (rest : Acts) (s : Stack)
+    (h : (runAct limit a s).2 = .halted) : runActs limit (.cons a rest) s = (s, .halted) := by
+  have hr := (run_restores limit).1 a s
+  simp only [runActs]
+  cases ha : runAct limit a s with
+  | mk s' out =>
+    rw [ha] at h hr
+    simp only at h hr
+    subst h; subst hr
+    rfl
+
+/-- C18.halt_escapes: under any number of try statements and calls, with no stack limit in the way, the
+    halt comes out as a halt and the scope chain is as it was -/
+theorem halt_escapes (n : Nat) : ∀ (s : Stack), runAct 0 (haltNest n) s = (s, .halted) := by
+  induction n with
+  | zero => intro s; rfl
+  | succ n ih =>
+    intro s
+    have inner : ∀ t, runActs 0 (.cons (.catching (.cons (haltNest n) .nil)) .nil) t = (t, .halted) := by
+      intro t
+      apply halt_skips_rest
+      rw [halt_not_caught]
+      rw [halt_skips_rest 0 (haltNest n) .nil t (by rw [ih t])]
+    have hcall : runAct 0 (.call (.cons (.catching (.cons (haltNest n) .nil)) .nil)) s = (s, .halted) := by
+      cases he : enter 0 s with
+      | rangeError => cases s <;> simp [enter] at he
+      | ok s' => exact halt_through_call 0 _ s s' he (by rw [inner s'])
+    have houter : runActs 0 (.cons (.call (.cons (.catching (.cons (haltNest n) .nil)) .nil)) .nil) s = (s, .halted) :=
+      halt_skips_rest 0 _ .nil s (by rw [hcall])
+    have hs := (run_restores 0).1 (haltNest (n+1)) s
+    have h2 : (runAct 0 (haltNest (n+1)) s).2 = .halted := by
+      show (runAct 0 (.catching _) s).2 = .halted
+      rw [halt_not_caught, houter]
+    exact Prod.ext hs h2
+
+example : runAct 0 (haltNest 3) [0] = ([0], .halted) := by decide
+-- the same position reached by an ordinary panic is caught by the innermost try
+example : (runAct 0 (.catching (.cons (.call (.cons .panicHere .nil)) .nil)) [0]).2 = .done := by decide
+example : (runAct 0 (.catching (.cons (.call (.cons .haltHere .nil)) .nil)) [0]).2 = .halted := by decide
 
 /-- the guard: with a limit L > 0 no scope ever gets depth ≥ L -/
 theorem enter_bound (limit : Nat) (hl : limit ≠ 0) (s s' : Stack) (hs : ∀ d ∈ s, d < limit)
@@ -231,6 +309,13 @@ theorem poll_sites : Gen.pollAtTop = [("cmplEvaluateNodeExpression", true), ("cm
     and puts them back (x := rt.labels; rt.labels = nil; value(); rt.labels = x): `pollReenter` is the
     code, not `pollReenterOld` -/
 theorem poll_keeps_labels : Gen.stmtPollKeepsLabels = true := by decide
+
+/-- the model's `haltHere` / `catching` is the code: each of the three polls hands the received function to
+    `rt.interrupt`; `interrupt` is `halting := true; defer func(){ rt.halting = halting }(); function();
+    halting = false` (so rt.halting is true exactly when the function panicked); and the deferred function of
+    tryCatchEvaluate begins with `if rt.halting { return }`, before it calls recover() -/
+theorem halt_not_recovered : Gen.interruptPolls = 3 ∧ Gen.pollsRunInterrupt = true ∧
+    Gen.interruptNotesPanic = true ∧ Gen.tryLetsHaltPass = true := by decide
 
 /-- Otto.Copy is `out := &Otto{runtime: o.runtime.clone()}; out.runtime.otto = out; return out`: the
     model's `Handle.copy` (no field of the template's handle is carried over, the back pointer is the copy) -/
